@@ -47,6 +47,9 @@ pub struct Scenario {
     /// with `via_config`: 1 = the df filter is given on the command line instead of in the file, 2 = the aircraft
     /// filter is (the command line overrides the file option by option; the other filter stays in the file)
     pub split: u8,
+    /// with `via_config`: the configuration file names the sources without their positions and the command line names
+    /// the same endpoints again with `@lat,lon` (the command line's sources are appended to the file's)
+    pub cli_dup: bool,
     /// `--history-expire` (minutes; 0 = keep no history)
     pub history_expire: Option<u64>,
     /// with `via_config`: write the sources in the long table form `tcp = { address = "127.0.0.1", port = N }`
@@ -206,8 +209,16 @@ pub fn play(env: &Env, sc: &Scenario, tag: &str) -> Result<Outcome, Fail> {
             } else {
                 t += &format!("\n[[sources]]\ntcp = \"127.0.0.1:{port}\"\n");
             }
-            if let Some((la, lo)) = r {
+            if let (Some((la, lo)), false) = (r, sc.cli_dup) {
                 t += &format!("latitude = {la:?}\nlongitude = {lo:?}\n");
+            }
+        }
+        if sc.cli_dup {
+            for (port, r) in ports.iter().zip(sc.references.iter()) {
+                cmd.arg(match r {
+                    Some((la, lo)) => format!("tcp://127.0.0.1:{port}@{la:?},{lo:?}"),
+                    None => format!("tcp://127.0.0.1:{port}"),
+                });
             }
         }
         let cfg = dir.join("scenario.toml");
@@ -395,7 +406,7 @@ pub fn scenario_json(sc: &Scenario) -> Value {
     serde_json::json!({
         "references": sc.references.iter().map(|r| r.map(|(a, o)| vec![a, o])).collect::<Vec<_>>(),
         "sends": sc.sends.iter().map(|s| serde_json::json!([s.source, hex::encode(&s.frame), s.pause_ms, s.cut, s.clock_offset_s])).collect::<Vec<_>>(),
-        "df_filter": sc.df_filter, "aircraft_filter": sc.aircraft_filter, "dedup_ms": sc.dedup_ms, "update_position": sc.update_position, "with_file": sc.with_file, "via_config": sc.via_config, "split": sc.split, "long_table": sc.long_table, "history_expire": sc.history_expire, "track": sc.track,
+        "df_filter": sc.df_filter, "aircraft_filter": sc.aircraft_filter, "dedup_ms": sc.dedup_ms, "update_position": sc.update_position, "with_file": sc.with_file, "via_config": sc.via_config, "split": sc.split, "long_table": sc.long_table, "cli_dup": sc.cli_dup, "history_expire": sc.history_expire, "track": sc.track,
     })
 }
 
@@ -411,6 +422,7 @@ pub fn scenario_of(v: &Value) -> Scenario {
         via_config: v["via_config"].as_bool().unwrap_or(false),
         split: v["split"].as_u64().unwrap_or(0) as u8,
         long_table: v["long_table"].as_bool().unwrap_or(false),
+        cli_dup: v["cli_dup"].as_bool().unwrap_or(false),
         history_expire: v["history_expire"].as_u64(),
         track: v["track"].as_array().map(|a| a.iter().map(|x| x.as_u64().unwrap_or(0) as u32).collect()).unwrap_or_default(),
     }
